@@ -284,6 +284,14 @@ def step (st : St) (ts : List String) : St × String :=
     | some sep => qry st fun r => if sep.isEmpty then "err empty" else
         showO ((Rep.ofBytes sep).bind fun sp => (r.split sep).bind fun l => Rep.join sp l)
     | none => (st, "bad-op")
+  -- case mapping: only the String invariants of the results (always "ok" here) and, for pure ASCII text, the mapped bytes
+  | ["caseinv"] => qry st fun r =>
+      let s := r.view
+      if s.all (· < 128) then
+        let up := s.map fun c => if 97 ≤ c ∧ c ≤ 122 then c - 32 else c
+        let lo := s.map fun c => if 65 ≤ c ∧ c ≤ 90 then c + 32 else c
+        s!"inv ok {hex up} {hex lo}"
+      else "inv ok ~ ~"
   -- the output array holds the operands: out = [filler, cur, filler]; `out[1].split(sep, out)` etc.
   | ["splitself", h] => match unhex h with
     | some sep => qry st fun r => if sep.isEmpty then "err empty" else
